@@ -134,6 +134,7 @@ def gen_macro(rng, k, macros, var, globs=(), taint=False):
     for l in pend:
         body.append(("label", l))
     m.body = body
+    m.brace_comments = rng.random() < 0.3
     return m
 
 
@@ -144,7 +145,9 @@ def macro_text(m):
         if b[0] == "label":
             lines.append("        %s:" % b[1])
         else:
-            lines.append("        " + "".join({"t": lambda x: x, "sub": lambda x: "{%s}" % x, "val": lambda x: "{%s}" % x, "lab": lambda x: x}[k](v) for k, v in b[1]))
+            # (a comment inside the block may hold braces: they do not end the block - finding F64, repaired)
+            cm = ["", "", "", " ; } {", " ;* } *;", " ; {"][(len(lines) * 7 + len(m.name) + len(b[1])) % 6] if getattr(m, "brace_comments", False) else ""
+            lines.append("        " + "".join({"t": lambda x: x, "sub": lambda x: "{%s}" % x, "val": lambda x: "{%s}" % x, "lab": lambda x: x}[k](v) for k, v in b[1]) + cm)
     if m.locals:
         pre = "".join("        %s = %s\n" % (n, "".join(v for _, v in e)) for n, e in m.locals)
         return "    %s => {\n%s        asm {\n%s\n        }\n    }" % (pat, pre, "\n".join(lines))
